@@ -337,6 +337,17 @@ class DC:
     x: int
     y: typing.List[int] = dataclasses.field(default_factory=list)
 
+@dataclasses.dataclass
+class Invoice:
+    """fields of every special kind: init=False, ClassVar, default_factory, kw_only"""
+    net: int
+    rate: int = 20
+    gross: int = dataclasses.field(init=False, default=0)
+    RATE_CAP: typing.ClassVar[int] = 100
+    tags: typing.List[str] = dataclasses.field(default_factory=list, kw_only=True)
+    def __post_init__(self):
+        self.gross = self.net + self.net * self.rate // 100
+
 class NT(typing.NamedTuple):
     a: int
     b: str = "b"
@@ -800,16 +811,16 @@ def _internal_child(_job):
     import typelib
     from typelib import graph
     from typelib.py import inspection
-    DC, NT = ns["DC"], ns["NT"]
+    DC, NT, Invoice = ns["DC"], ns["NT"], ns["Invoice"]
     out = {"internal_mutation": [], "public_paths": []}
-    for T in (DC, list[DC], typing.Optional[DC], dict[str, typing.Union[int, str]], NT, tuple[int, str]):
+    for T in (DC, list[DC], typing.Optional[DC], dict[str, typing.Union[int, str]], NT, tuple[int, str], Invoice, list[Invoice]):
         lst = graph.static_order(T)
         snap = describe(lst)
         hints = inspection.cached_type_hints(T) if isinstance(T, type) else None
         hsnap = describe(hints) if hints is not None else None
         for build in (typelib.marshaller, typelib.unmarshaller, typelib.codec):
             build(T)
-        for v in ({"x": "1", "y": ["2"]}, [{"x": 1}], None, {"a": "5"}, (1, "b"), "[1, 2]"):
+        for v in ({"x": "1", "y": ["2"]}, [{"x": 1}], None, {"a": "5"}, (1, "b"), "[1, 2]", {"net": "100"}, [{"net": 1, "rate": 2}], Invoice(5)):
             for f in (lambda: typelib.unmarshal(T, copy.deepcopy(v)), lambda: typelib.marshal(copy.deepcopy(v), t=T),
                       lambda: typelib.encode(copy.deepcopy(v), t=T)):
                 try:
@@ -1605,13 +1616,21 @@ import dataclasses, datetime, decimal, typing
 class Row:
     key: int | str
     tags: typing.Optional[list[int] | list[str]] = None
+@dataclasses.dataclass
+class Invoice:
+    net: int
+    rate: int = 20
+    gross: int = dataclasses.field(init=False, default=0)
+    def __post_init__(self):
+        self.gross = self.net + self.net * self.rate // 100
 """
 SEQ_TYPES = ["int | str", "typing.Union[int, str, None]", "list[int] | list[str]", "int | float", "float | str", "datetime.date | str",
              "decimal.Decimal | str", "bool | int | str", "dict[str, int | str]", "list[int | str]", "tuple[int | str, ...]", "Row",
-             "typing.Optional[Row]", "int | datetime.date", "float | datetime.timedelta", "str", "int", "list[int]"]
+             "typing.Optional[Row]", "int | datetime.date", "float | datetime.timedelta", "str", "int", "list[int]", "Invoice", "list[Invoice]"]
 SEQ_INPUTS = ["'abc'", "'5'", "'1.5'", "5", "1.5", "float('inf')", "True", "None", "['a', 'b']", "['1', '2']", "[1, 2]", "{'k': 'abc'}",
               "{'k': '5'}", "('x', '7')", "'2020-01-02'", "datetime.date(2020, 1, 2)", "{'key': 'abc'}", "{'key': '5'}",
-              "Row('abc')", "Row('5', ['1'])", "Row(5, ['a'])", "b'5'", "b'abc'", "datetime.timedelta(seconds=3)", "7200"]
+              "Row('abc')", "Row('5', ['1'])", "Row(5, ['a'])", "b'5'", "b'abc'", "datetime.timedelta(seconds=3)", "7200",
+              "Invoice(100, 20)", "{'net': 100, 'rate': 20}", "[Invoice(1)]", "[{'net': '3'}]"]
 SEQ_OPS = ["marshal", "unmarshal", "encode", "decode"]
 
 
@@ -1659,6 +1678,10 @@ def check_sequences(ctx, res):
             for _ in range(n_seq):
                 xs = [rng.choice(SEQ_INPUTS) for _ in range(10)]
                 warm_jobs.append([(op, t, x) for x in xs])
+    # the four operations interleaved on one annotation (a routine of one direction may not change what the other direction answers)
+    for t in SEQ_TYPES:
+        for _ in range(n_seq):
+            warm_jobs.append([(rng.choice(SEQ_OPS), t, rng.choice(SEQ_INPUTS)) for _ in range(12)])
     outs = iso.map_isolated(_seq_child, cold_jobs + warm_jobs, timeout=120.0)
     cold = {}
     for job, o in zip(cold_jobs, outs[:len(cold_jobs)]):
